@@ -50,7 +50,8 @@ def explore(tier, config="default"):
     th = facts.tree_hash(repo)
     d = os.path.join(facts.CACHE, th)
     os.makedirs(d, exist_ok=True)
-    path = os.path.join(d, "heap-%s-%s-%s.json" % (tier, config, _src_hash()))
+    path = os.path.join(d, "heap-%s-%s-%s%s.json" % (tier, config, _src_hash(),
+                                                         ("-cap%s" % os.environ["GCV_HEAP_DEPTH_CAP"]) if os.environ.get("GCV_HEAP_DEPTH_CAP") else ""))
     with open(path + ".lock", "w") as lk:
         fcntl.flock(lk, fcntl.LOCK_EX)
         if os.path.exists(path):
@@ -61,7 +62,10 @@ def explore(tier, config="default"):
         prog = model.Program(facts.load(config), config)
         out = {}
         jobs = int(os.environ.get("GCV_HEAP_JOBS") or max(1, min(12, (os.cpu_count() or 2) - 2)))
+        cap = int(os.environ.get("GCV_HEAP_DEPTH_CAP") or 0)     # selftest only: replaying hundreds of broken variants
         for (label, K, depth, faults, budget) in PARAMS[tier]:
+            if cap:
+                depth = min(depth, cap)
             h = heap.Heap(prog, K=K, allow_panic=faults)
             t0 = time.time()
             v, stats = h.explore(depth, budget, jobs=jobs)
